@@ -144,37 +144,52 @@ def gen_partial():
             "def wait(self):\n"
             "    if try_compute.depth > 0 and id(self) in try_compute.not_ready_yet:\n"
             "        raise NotReadyError()\n"
-            "    with Awaiting(self):\n"
-            "        try:\n"
-            "            return self._wait()\n"
-            "        except NotReadyError:\n"
-            "            if try_compute.depth > 0:\n"
-            "                try_compute.not_ready_yet[id(self)] = self\n"
-            "            raise", "BaseDeferred.wait (with the not_ready_yet memo)")
+            "    try:\n"
+            "        with Awaiting(self):\n"
+            "            try:\n"
+            "                return self._wait()\n"
+            "            except NotReadyError:\n"
+            "                if try_compute.depth > 0:\n"
+            "                    try_compute.not_ready_yet[id(self)] = self\n"
+            "                raise\n"
+            "    except DeferredCycle:\n"
+            "        remember_cycle(self)\n"
+            "        raise", "BaseDeferred.wait (not_ready_yet memo, cycle remembered on the way out)")
     aw = find_class(tree, "Awaiting")
-    # Awaiting with the frame-scoped cycle memo of fix 22284d4.  The memo is written only by remember_cycle(), which is called
-    # only where symbolic_product() catches a DeferredCycle of a factor: a nested-exception structure Model/WaitModel.v does not
-    # have (no modelled fn catches an exception), so in the model known_cycles is always empty and the extra disjunct of
-    # __enter__ is False.  The shapes are pinned so that any change of that protocol aborts here.
+    # Awaiting with the frame-scoped cycle memo of fixes 22284d4 / 2b465cd.  The memo is written by remember_cycle(), called by
+    # BaseDeferred.wait on every DeferredCycle on its way out and where symbolic_product() catches the DeferredCycle of a factor.
+    # It is read (Awaiting.__enter__) only by an evaluation that goes on after a DeferredCycle was caught; in Model/WaitModel.v
+    # no fn catches an exception: a DeferredCycle unwinds to the outermost wait(), whose frame forgets everything.  So the memo
+    # is inert on the graphs of the model.  The shapes are pinned so that any change of the protocol aborts here.
     dump_eq(find_def(aw, "__enter__"), "def __enter__(self):\n    if self.deferred.is_awaiting or id(self.deferred) in Awaiting.known_cycles:\n        raise DeferredCycle()\n"
             "    self.deferred.is_awaiting = True\n    Awaiting.awaiting_stack.append(self.deferred)\n    Awaiting.found_cycles_stack.append([])\n    return self", "Awaiting.__enter__")
     dump_eq(find_def(aw, "__exit__"), "def __exit__(self, exc_type, exc_value, exc_tb):\n    assert Awaiting.awaiting_stack.pop() is self.deferred\n"
-            "    self.deferred.is_awaiting = False\n    for key in Awaiting.found_cycles_stack.pop():\n        Awaiting.known_cycles.pop(key, None)", "Awaiting.__exit__")
+            "    self.deferred.is_awaiting = False\n    found = Awaiting.found_cycles_stack.pop()\n"
+            "    if exc_type is DeferredCycle and Awaiting.found_cycles_stack:\n        Awaiting.found_cycles_stack[-1].extend(found)\n"
+            "    else:\n        for key in found:\n            Awaiting.known_cycles.pop(key, None)", "Awaiting.__exit__")
     dump_eq(find_def(tree, "remember_cycle"),
             "def remember_cycle(deferred):\n"
             "    if Awaiting.found_cycles_stack and isinstance(deferred, BaseDeferred) and id(deferred) not in Awaiting.known_cycles:\n"
             "        Awaiting.known_cycles[id(deferred)] = deferred\n"
             "        Awaiting.found_cycles_stack[-1].append(id(deferred))", "remember_cycle")
     rc_calls = [n for n in ast.walk(tree) if isinstance(n, ast.Call) and isinstance(n.func, ast.Name) and n.func.id == "remember_cycle"]
-    need(len(rc_calls) == 1 and ast.unparse(rc_calls[0]) == "remember_cycle(number)", "remember_cycle is called somewhere else than in symbolic_product's second loop")
+    need(sorted(ast.unparse(c) for c in rc_calls) == ["remember_cycle(number)", "remember_cycle(self)"],
+         "remember_cycle is called somewhere else than in BaseDeferred.wait and symbolic_product's second loop")
     sp = find_def(tree, "symbolic_product")
-    need(any(n is rc_calls[0] for n in ast.walk(sp)), "remember_cycle is not called from symbolic_product")
-    handlers = [h for h in ast.walk(sp) if isinstance(h, ast.ExceptHandler) and any(n is rc_calls[0] for n in ast.walk(h))]
+    sp_call = [c for c in rc_calls if ast.unparse(c) == "remember_cycle(number)"][0]
+    need(any(n is sp_call for n in ast.walk(sp)), "remember_cycle(number) is not called from symbolic_product")
+    handlers = [h for h in ast.walk(sp) if isinstance(h, ast.ExceptHandler) and any(n is sp_call for n in ast.walk(h))]
     need(len(handlers) == 1 and ast.unparse(handlers[0].type) == "DeferredCycle" and ast.unparse(handlers[0].body[-1]) == "continue",
          "symbolic_product: remember_cycle must sit in `except DeferredCycle: remember_cycle(number); continue`")
     kc_writers = sorted({ast.unparse(n.value)[:40] for n in ast.walk(tree) if isinstance(n, ast.Subscript) and isinstance(n.ctx, ast.Store) and "known_cycles" in ast.unparse(n.value)})
     need(kc_writers == ["Awaiting.known_cycles"] and sum(1 for n in ast.walk(tree) if isinstance(n, ast.Subscript) and isinstance(n.ctx, ast.Store) and "known_cycles" in ast.unparse(n.value)) == 1,
          "known_cycles is written outside remember_cycle")
+    # a coefficient beyond MAX_COEFFICIENT_BITS in LinearPolynomial expansion is treated as a ring being unrolled (2b465cd)
+    mcb = const_int(find_assign(tree, "MAX_COEFFICIENT_BITS"), "MAX_COEFFICIENT_BITS")
+    need(mcb >= 64, "MAX_COEFFICIENT_BITS implausibly small")
+    guards = [n for n in ast.walk(tree) if isinstance(n, ast.If) and ast.unparse(n.test) == "value.bit_length() > MAX_COEFFICIENT_BITS"]
+    need(len(guards) == 1 and ast.unparse(guards[0].body[-1]) == "raise DeferredCycle()" and not guards[0].orelse, "expand(): the coefficient guard changed")
+    out += f"(* deferred.py: MAX_COEFFICIENT_BITS *)\nDefinition max_coefficient_bits : nat := {mcb}%nat.\n\n"
     df = find_class(tree, "Deferred")
     dump_eq(find_def(df, "_wait"), "def _wait(self):\n    if self.settled:\n        return self.value\n    else:\n        self.value = self.fn()\n"
             "        self.settled = True\n        return self.value", "Deferred._wait")
